@@ -74,7 +74,7 @@ fn token_arg(tok: &str, nonce: u64) -> Vec<u8> {
 
 pub fn gen(rng: &mut Rng, n: usize, sink: &mut Sink, focus: &str) {
     while sink.count < n {
-        let gw = gateway::setup(rng, sink); // does `reset`, funds users 0..4, deploys the gateway
+        let gw = gateway::setup_with_sets(rng, sink); // does `reset`, funds users 0..4, deploys the gateway
         for i in 0..6 {
             sink.exec(&format!("acct {} 1000000 {}:0:1000000,{}:0:1000000", hex::encode(user(i)), TOKENS[0], TOKENS[1]));
         }
@@ -306,7 +306,7 @@ fn parse_hex_u64(out: &str) -> u64 {
 /// its failure callback is lost), for the time lock (`operator_path = false`) and for operator
 /// approvals (`true`).  Used to produce the committed corpus files.
 pub fn scenario_f3(rng: &mut Rng, sink: &mut Sink, operator_path: bool) {
-    let gw = gateway::setup(rng, sink);
+    let gw = gateway::setup_with_sets(rng, sink);
     for i in 0..6 {
         sink.exec(&format!("acct {} 1000000 -", hex::encode(user(i))));
     }
